@@ -1442,7 +1442,14 @@ func (e *Exec) conv(dst, src types.Type, x Value) Value {
 			case *types.Slice:
 				sl := x.(Slice)
 				if sl.Abs != nil {
-					e.unsupported("string(abstract JSON bytes)")
+					if jt, ok := sl.Abs.(*JText); ok {
+						var sb strings.Builder
+						if v := e.textValue(sl); renderJSON(v, &sb) {
+							_ = jt
+							return Str{S: sb.String()}
+						}
+					}
+					e.unsupported("string(abstract JSON bytes with symbolic content)")
 				}
 				el := s.Elem().Underlying().(*types.Basic)
 				if el.Kind() == types.Uint8 {
